@@ -1,4 +1,5 @@
 import OapiVerif.Proofs.Codec
+import OapiVerif.Proofs.QueryParam
 /-!
 C04 — Parameters survive the generated client → generated server round trip.
 
@@ -355,5 +356,40 @@ example : (match bindStyled .matrix true true [105, 100] .path .arr
   decide
 example : ObjRepr .label true [118] .header [([97], [120, 32]), ([98], [121])] :=
   ⟨by decide, by decide, by decide, by decide, by decide, by decide, by decide⟩
+
+/-! ### Query parameters (style form): client fragment → `url.ParseQuery` → `BindQueryParameter` -/
+
+/-- A primitive query parameter, exploded or not, arrives as the value supplied (any bytes; the unexploded
+form splits on commas, so the value must not contain one). -/
+theorem C04_query_prim_roundtrip (explode required : Bool) (name s : Str) (hn : Security.NameOk name)
+    (hs : ∀ b ∈ s, b < 256) (hnc : cComma ∉ s) :
+    ∃ q, parseQuery (styleParam .form explode name .query (.prim s)) = .ok q ∧
+      bindQuery explode required name .prim [] q = .ok (some (.prim s)) :=
+  ⟨_, Security.parse_form_prim explode name s hn hs,
+    Security.query_prim_roundtrip explode required name s hn hs hnc _ (Security.parse_form_prim explode name s hn hs)⟩
+
+/-- An exploded array query parameter (`name=a&name=b`, the default): any bytes in the items. -/
+theorem C04_query_array_exploded_roundtrip (required : Bool) (name : Str) (xs : List Str) (hn : Security.NameOk name)
+    (hne : xs ≠ []) (hb : ∀ x ∈ xs, ∀ b ∈ x, b < 256) :
+    ∃ q, parseQuery (styleParam .form true name .query (.arr xs)) = .ok q ∧
+      bindQuery true required name .arr [] q = .ok (some (.arr xs)) :=
+  Security.query_array_exploded_roundtrip required name xs hn hne hb
+
+/-- An unexploded array query parameter (`name=a,b,c`): items without a comma. -/
+theorem C04_query_array_unexploded_roundtrip (required : Bool) (name : Str) (xs : List Str) (hn : Security.NameOk name)
+    (hne : xs ≠ []) (hb : ∀ x ∈ xs, ∀ b ∈ x, b < 256) (hnc : ∀ x ∈ xs, cComma ∉ x) :
+    ∃ q, parseQuery (styleParam .form false name .query (.arr xs)) = .ok q ∧
+      bindQuery false required name .arr [] q = .ok (some (.arr xs)) :=
+  Security.query_array_unexploded_roundtrip required name xs hn hne hb hnc
+
+/-- An exploded object query parameter (`k1=v1&k2=v2`, the default for objects): member names that need no
+escaping, any bytes in the values. -/
+theorem C04_query_object_exploded_roundtrip (required : Bool) (name : Str) (kvs : List (Str × Str)) (hne : kvs ≠ [])
+    (hk : ∀ kv ∈ kvs, Security.NameOk kv.1) (hnd : (kvs.map (·.1)).Nodup) (hb : ∀ kv ∈ kvs, ∀ b ∈ kv.2, b < 256) :
+    ∃ q, parseQuery (styleParam .form true name .query (.obj kvs)) = .ok q ∧
+      bindQuery true required name .obj (kvs.map (·.1)) q = .ok (some (.obj kvs)) :=
+  Security.query_object_exploded_roundtrip required name kvs hne hk hnd hb
+
+example : Security.NameOk [118] := by intro b hb; simp at hb; subst hb; decide
 
 end OapiVerif.Codec
